@@ -1,3 +1,180 @@
-(* placeholder so that the pipeline runs; theorems are added below as they are proved *)
-From Coq Require Import ZArith List.
-From Batchie Require Import Model.Encode Model.Screen.
+(* C01 — Screen identifiers are a faithful, dense encoding of names and doses.
+   Statements only; every proof is `exact <lemma from Proofs/>`.
+   [mk_screen rows arity ctrl tmap smap obs_given mask_given = Ok s] is "s can be constructed". *)
+From Coq Require Import ZArith List Bool.
+From Batchie Require Import Lib.Sexp Generated.Consts Model.Encode Model.Screen
+  Proofs.C01Encode Proofs.C01Screen Proofs.C01Props.
+Import ListNotations.
+Open Scope Z_scope.
+
+(* the sentinel the model uses is the one the source defines today *)
+Theorem C01_sentinel_from_source : CONTROL_SENTINEL_VALUE = -1.
+Proof. exact sentinel_is_minus_one. Qed.
+Print Assumptions C01_sentinel_from_source.
+
+(* every experiment's stored treatment id is the mapping's id of exactly that (name, dose) *)
+Theorem C01_decode_treatments : forall rows a ctrl tm sm og mg s,
+  mk_screen rows a ctrl tm sm og mg = Ok s ->
+  s_tids s = map (fun r => map (tid_of (s_tmap s)) (r_treats r)) (s_rows s) /\
+  forall k, row_keys s k -> In (k, tid_of (s_tmap s) k) (s_tmap s).
+Proof. exact decode_treatments. Qed.
+Print Assumptions C01_decode_treatments.
+
+Theorem C01_decode_samples : forall rows a ctrl tm sm og mg s,
+  mk_screen rows a ctrl tm sm og mg = Ok s ->
+  s_sids s = map (fun r => nid_of (s_smap s) (r_sample r)) (s_rows s) /\
+  forall r, In r (s_rows s) -> In (r_sample r, nid_of (s_smap s) (r_sample r)) (s_smap s).
+Proof. exact decode_samples. Qed.
+Print Assumptions C01_decode_samples.
+
+Theorem C01_decode_plates : forall rows a ctrl tm sm og mg s,
+  mk_screen rows a ctrl tm sm og mg = Ok s ->
+  s_pids s = map (fun r => nid_of (s_pmap s) (r_plate r)) (s_rows s) /\
+  forall r, In r (s_rows s) -> In (r_plate r, nid_of (s_pmap s) (r_plate r)) (s_pmap s).
+Proof. exact decode_plates. Qed.
+Print Assumptions C01_decode_plates.
+
+(* sentinel exactly when the name is the control name or the dose is not positive *)
+Theorem C01_control_iff : forall rows a ctrl sm og mg s,
+  mk_screen rows a ctrl None sm og mg = Ok s ->
+  forall k, row_keys s k ->
+  (tid_of (s_tmap s) k = CONTROL_SENTINEL_VALUE <-> (snd k <= 0 \/ fst k = ctrl)).
+Proof. exact control_iff. Qed.
+Print Assumptions C01_control_iff.
+
+(* the non-control treatment ids in use are exactly 0 .. (experiment-space size - 1) *)
+Theorem C01_treatment_ids_dense : forall rows a ctrl sm og mg s,
+  mk_screen rows a ctrl None sm og mg = Ok s ->
+  forall z, (exists k, row_keys s k /\ tid_of (s_tmap s) k = z /\ z <> CONTROL_SENTINEL_VALUE)
+            <-> 0 <= z < space_n_treatments s.
+Proof. exact treatment_ids_dense. Qed.
+Print Assumptions C01_treatment_ids_dense.
+
+(* equal non-control ids iff equal (name, dose) *)
+Theorem C01_treatment_ids_injective : forall rows a ctrl sm og mg s,
+  mk_screen rows a ctrl None sm og mg = Ok s ->
+  forall k1 k2, row_keys s k1 -> row_keys s k2 ->
+  tid_of (s_tmap s) k1 <> CONTROL_SENTINEL_VALUE ->
+  (tid_of (s_tmap s) k1 = tid_of (s_tmap s) k2 <-> k1 = k2).
+Proof. exact treatment_ids_injective. Qed.
+Print Assumptions C01_treatment_ids_injective.
+
+Theorem C01_sample_ids_dense : forall rows a ctrl tm og mg s,
+  mk_screen rows a ctrl tm None og mg = Ok s ->
+  forall z, (exists r, In r (s_rows s) /\ nid_of (s_smap s) (r_sample r) = z) <-> 0 <= z < space_n_samples s.
+Proof. exact sample_ids_dense. Qed.
+Print Assumptions C01_sample_ids_dense.
+
+Theorem C01_sample_ids_injective : forall rows a ctrl tm og mg s,
+  mk_screen rows a ctrl tm None og mg = Ok s ->
+  forall r1 r2, In r1 (s_rows s) -> In r2 (s_rows s) ->
+  (nid_of (s_smap s) (r_sample r1) = nid_of (s_smap s) (r_sample r2) <-> r_sample r1 = r_sample r2).
+Proof. exact sample_ids_injective. Qed.
+Print Assumptions C01_sample_ids_injective.
+
+Theorem C01_plate_ids_dense : forall rows a ctrl tm sm og mg s,
+  mk_screen rows a ctrl tm sm og mg = Ok s ->
+  forall z, (exists r, In r (s_rows s) /\ nid_of (s_pmap s) (r_plate r) = z)
+            <-> 0 <= z < Z.of_nat (length (sort_uniq name_cmp (map r_plate rows))).
+Proof. exact plate_ids_dense. Qed.
+Print Assumptions C01_plate_ids_dense.
+
+Theorem C01_plate_ids_injective : forall rows a ctrl tm sm og mg s,
+  mk_screen rows a ctrl tm sm og mg = Ok s ->
+  forall r1 r2, In r1 (s_rows s) -> In r2 (s_rows s) ->
+  (nid_of (s_pmap s) (r_plate r1) = nid_of (s_pmap s) (r_plate r2) <-> r_plate r1 = r_plate r2).
+Proof. exact plate_ids_injective. Qed.
+Print Assumptions C01_plate_ids_injective.
+
+(* a supplied mapping is followed verbatim (C01_decode_* then says the ids are its ids) *)
+Theorem C01_supplied_verbatim : forall rows a ctrl m b sm og mg s,
+  mk_screen rows a ctrl (Some (m, b)) sm og mg = Ok s ->
+  s_tmap s = m /\ zero_indexed b (map snd m) = true.
+Proof. exact supplied_verbatim. Qed.
+Print Assumptions C01_supplied_verbatim.
+
+Theorem C01_supplied_samples_verbatim : forall rows a ctrl tm m b og mg s,
+  mk_screen rows a ctrl tm (Some (m, b)) og mg = Ok s ->
+  s_smap s = m /\ zero_indexed b (map snd m) = true.
+Proof. exact supplied_samples_verbatim. Qed.
+Print Assumptions C01_supplied_samples_verbatim.
+
+(* ... or rejected: not dense *)
+Theorem C01_supplied_not_dense_rejected : forall rows a ctrl m b sm og mg,
+  forallb (fun r => Nat.eqb (length (r_treats r)) a) rows = true ->
+  negb og && mg = false -> plate_uniform (norm_rows og mg rows) = true ->
+  zero_indexed b (map snd m) = false ->
+  mk_screen rows a ctrl (Some (m, b)) sm og mg = Err 3.
+Proof. exact supplied_not_dense_rejected. Qed.
+Print Assumptions C01_supplied_not_dense_rejected.
+
+(* ... or rejected: does not cover the data *)
+Theorem C01_supplied_uncovered_rejected : forall rows a ctrl m b sm og mg k r,
+  forallb (fun r => Nat.eqb (length (r_treats r)) a) rows = true ->
+  In r rows -> In k (r_treats r) -> ~ In k (map fst m) ->
+  forall s, mk_screen rows a ctrl (Some (m, b)) sm og mg <> Ok s.
+Proof. exact supplied_uncovered_rejected. Qed.
+Print Assumptions C01_supplied_uncovered_rejected.
+
+(* what "dense" means for a supplied id array *)
+Theorem C01_zero_indexed_spec : forall ids,
+  zero_indexed true ids = true <->
+  exists u : nat, forall z, In z ids <-> ((z = -1 /\ In (-1) ids) \/ 0 <= z < Z.of_nat u).
+Proof. exact zero_indexed_spec. Qed.
+Print Assumptions C01_zero_indexed_spec.
+
+(* the mappings a screen builds are accepted back, on any rows they cover, unchanged:
+   so the same (name, dose) / name gets the same id in the sub-screen (lemma C02/C03 stand on) *)
+Theorem C01_superset_stable : forall rows a ctrl og mg s sub,
+  mk_screen rows a ctrl None None og mg = Ok s ->
+  forallb (fun r => Nat.eqb (length (r_treats r)) a) sub = true ->
+  plate_uniform sub = true ->
+  (forall r k, In r sub -> In k (r_treats r) -> row_keys s k) ->
+  (forall r, In r sub -> In (r_sample r) (map r_sample (s_rows s))) ->
+  exists s', mk_screen sub a ctrl (Some (s_tmap s, true)) (Some (s_smap s, true)) true true = Ok s'
+             /\ s_tmap s' = s_tmap s /\ s_smap s' = s_smap s /\ s_rows s' = sub.
+Proof. exact superset_stable. Qed.
+Print Assumptions C01_superset_stable.
+
+(* the experiment-space sizes strictly bound every id *)
+Theorem C01_treatment_ids_bounded : forall rows a ctrl tm sm og mg s k,
+  mk_screen rows a ctrl tm sm og mg = Ok s -> row_keys s k ->
+  match tm with Some (_, b) => b = true | None => True end ->
+  tid_of (s_tmap s) k < space_n_treatments s.
+Proof. exact treatment_ids_bounded. Qed.
+Print Assumptions C01_treatment_ids_bounded.
+
+Theorem C01_sample_ids_bounded : forall rows a ctrl tm og mg s r,
+  mk_screen rows a ctrl tm None og mg = Ok s -> In r (s_rows s) ->
+  nid_of (s_smap s) (r_sample r) < space_n_samples s.
+Proof. exact sample_ids_bounded. Qed.
+Print Assumptions C01_sample_ids_bounded.
+
+Theorem C01_sample_ids_bounded_supplied : forall rows a ctrl tm m og mg s r,
+  mk_screen rows a ctrl tm (Some (m, true)) og mg = Ok s -> NoDup (map fst m) -> In r (s_rows s) ->
+  nid_of (s_smap s) (r_sample r) < space_n_samples s.
+Proof. exact sample_ids_bounded_supplied. Qed.
+Print Assumptions C01_sample_ids_bounded_supplied.
+
+(* non-vacuity: a concrete screen with control by name, control by dose, a repeated key,
+   arity 2, names "" / "a" / "b" (code points), control name "" *)
+Definition ex_rows : list row :=
+  [ {| r_sample := [115]; r_plate := [112]; r_treats := [([97], 5); ([98], 7)]; r_obs := 1; r_mask := true |};
+    {| r_sample := [116]; r_plate := [112]; r_treats := [([97], 5); ([], 7)]; r_obs := 2; r_mask := true |};
+    {| r_sample := [115]; r_plate := [113]; r_treats := [([98], 0); ([98], 7)]; r_obs := 3; r_mask := false |} ].
+
+Example C01_example_constructs :
+  exists s, mk_screen ex_rows 2 [] None None true true = Ok s
+            /\ s_tids s = [[0; 1]; [0; -1]; [-1; 1]] /\ s_sids s = [0; 1; 0] /\ s_pids s = [0; 0; 1]
+            /\ space_n_treatments s = 2 /\ space_n_samples s = 2.
+Proof. eexists. vm_compute. repeat split. Qed.
+
+Example C01_example_reuse :
+  exists s s', mk_screen ex_rows 2 [] None None true true = Ok s
+    /\ mk_screen (tl ex_rows) 2 [] (Some (s_tmap s, true)) (Some (s_smap s, true)) true true = Ok s'
+    /\ s_tids s' = [[0; -1]; [-1; 1]] /\ s_sids s' = [1; 0] /\ s_tmap s' = s_tmap s.
+Proof. do 2 eexists. vm_compute. repeat split. Qed.
+
+Example C01_example_gap_rejected :
+  mk_screen ex_rows 2 [] (Some ([(([97], 5), 0); (([98], 7), 2); (([], 7), -1); (([98], 0), -1)], true)) None true true = Err 3.
+Proof. vm_compute. reflexivity. Qed.
